@@ -108,6 +108,11 @@ class Check:
         self.notes = []
         self.exhaustive = False
         self._printed_kf = set()
+        try:
+            for f in (OUT / "replay").glob(f"{pid}-{self.tier}-{self.seed}-*.json"):
+                f.unlink()
+        except OSError:
+            pass
 
     # ------------------------------------------------------------------ seeds
     def rng(self, *stream) -> np.random.Generator:
